@@ -1201,7 +1201,12 @@ pub fn replay_validate(case: &Value, rep: &mut Report, rng: &mut Rng) {
         Err(msg) => rep.mismatch("C12", "validate_or_predict_batch_panicked", &id, json!({"panic": msg}), case),
         Ok(((loss, acc), batch)) => {
             let want_acc = num(&case["acc"]);
-            if acc.to_bits() != want_acc.to_bits() {
+            // (with tied predictions either single-valued tie rule is "arg-max agreement"; without ties the two coincide)
+            let alt_acc = case.get("accfirst").map(num).unwrap_or(want_acc);
+            if alt_acc.to_bits() != want_acc.to_bits() {
+                rep.count("validate_cases_with_tied_predictions", 1);
+            }
+            if acc.to_bits() != want_acc.to_bits() && acc.to_bits() != alt_acc.to_bits() {
                 rep.mismatch("C12", "accuracy", &id, json!({"expected": want_acc, "observed": acc, "rule": rule, "tol": tol}), case);
             }
             if !softmax {
@@ -1228,6 +1233,32 @@ pub fn replay_validate(case: &Value, rep: &mut Report, rng: &mut Rng) {
                         rep.mismatch("C12", "predict_batch_element_or_order", &id, json!({"index": i}), case);
                         break;
                     }
+                }
+            }
+        }
+    }
+
+    // "The arithmetic mean over the samples": a sample whose loss does not fit single precision (finite prediction, finite
+    // target, squared error beyond 3.4e38) is a sample like any other -- the mean loss is then +infinity, and the sample
+    // still counts (as a miss) in the accuracy.  Sample k's prediction is replaced by huge values.
+    if !softmax && obj_name == "mse" && n >= 2 && case.get("accnum").is_some() {
+        let k = (n * 3 + len) % n;
+        let mut xs2 = xs.clone();
+        xs2[k] = Tensor::single((0..len).map(|j| 1.0e20 * (j as f32 + 1.0)).collect());
+        let xr2 = refs(&xs2);
+        let accnum: Vec<f32> = vec1(&case["accnum"]);
+        let hits: f32 = accnum.iter().enumerate().filter(|(i, _)| *i != k).map(|(_, a)| *a).sum();
+        let want_acc = hits / (len * n) as f32;
+        rep.checks += 1;
+        rep.count("validate_overflowing_loss_cases", 1);
+        match guarded(|| net.validate(&xr2, &yr, tol)) {
+            Err(msg) => rep.mismatch("C12", "validate_panicked_on_overflowing_loss", &id, json!({"panic": msg}), case),
+            Ok((loss, acc)) => {
+                if !(loss.is_infinite() && loss > 0.0) {
+                    rep.mismatch("C12", "mean_loss_drops_a_sample_whose_loss_overflows", &id, json!({"observed": loss, "sample": k}), case);
+                }
+                if acc.to_bits() != want_acc.to_bits() {
+                    rep.mismatch("C12", "accuracy_drops_a_sample_whose_loss_overflows", &id, json!({"expected": want_acc, "observed": acc, "sample": k}), case);
                 }
             }
         }
